@@ -41,6 +41,14 @@ class Flight:
         self.alt = 1000 + 25 * rng.below(1500)
         self.tc = rng.choice([9, 11, 13, 18, 20, 22])
         self.odd = rng.below(2)
+        # one flight in three heads straight away from the receiver at 2 - 4.5 km per report (inside what CPR pairing tolerates), so that a
+        # published aircraft crosses the range limit while every step is far below the jump limit
+        self.drift = None
+        if rng.chance(1, 3):
+            dl = float(self.lat) - rx[0]; dn = float(self.lon) - rx[1]
+            n = max(1e-6, (dl * dl + dn * dn) ** 0.5)
+            k = (20 + rng.below(20)) / 1000.0
+            self.drift = (Fr(int(dl / n * k * 100000), 100000), Fr(int(dn / n * k * 100000), 100000))
     def frame(self, me): return adsb(self.icao, me, df=self.df, cf=(self.icao >> 3) % 8 if self.df == 18 else None)
     def step(self, rng, big=False):
         if big and rng.chance(1, 2):
@@ -58,6 +66,10 @@ class Flight:
             self.lat = max(Fr(-89), min(Fr(89), Fr(self.rx[0]) + dl))
             self.lon = ((Fr(self.rx[1]) + dn + 180) % 360) - 180
             return
+        if self.drift and not big:
+            self.lat = max(Fr(-89), min(Fr(89), self.lat + self.drift[0]))
+            self.lon = ((self.lon + self.drift[1] + 180) % 360) - 180
+            return
         d = Fr(rng.below(200) - 100, 100000) if not big else Fr(rng.choice([-2, 2, 3]) , 1)
         self.lat = max(Fr(-89), min(Fr(89), self.lat + d))
         self.lon = ((self.lon + d * 2 + 180) % 360) - 180
@@ -71,6 +83,11 @@ class Flight:
         r = rng.below(16)
         a12 = alt12_of_feet(self.alt) if r < 11 else (0 if r < 13 else rng.choice([0x010, 0x017, 0x00a, 0x9e0, alt12_of_feet(self.alt + 2500)]))
         return self.frame(me_position(self.tc, a12, odd, yz, xz))
+
+def other_format(rng, icao):
+    """a frame of a format the tracker must ignore, carrying the address where that format has one (DF11: AA; others: random payload)"""
+    b = rand_frame(rng, rng.choice([0, 4, 5, 11, 11, 16, 19, 20, 21, 24])); put(b, 8, 24, icao)
+    return b
 
 def history(rng, n_ops, n_planes=4, with_time=True, rx=None, rng_range=None, addrs=None):
     rx = rx or rng.choice([(39.0, -77.0), (52.3, 4.8), (-33.9, 151.2), (69.7, 19.0), (0.5, 179.5), (64.1, -21.9)])
@@ -107,19 +124,27 @@ def history(rng, n_ops, n_planes=4, with_time=True, rx=None, rng_range=None, add
             b = rand_frame(rng, f.df, tc=tc); put(b, 8, 24, f.icao)
             ops.append(hexop("T act", b))
         elif r < 92:
-            b = rand_frame(rng, rng.choice([0, 4, 5, 11, 16, 19, 20, 21, 24])); put(b, 8, 24, f.icao)
-            ops.append(hexop("T act", b))
+            ops.append(hexop("T act", other_format(rng, f.icao)))
         elif with_time:
-            T = rng.choice([0, 1, 2, 120])
+            T = rng.choice([0, 1, 2, 120, 120, 1 << 62, (1 << 63) - 1, 1 << 63, (1 << 64) - 1])
+            if T > 1000:
+                # "never expire": nothing may be removed, however old
+                ops.append("T age %d" % rng.choice([0, 500, 130000])); ops.append("T prune %d" % T); continue
             kind = rng.below(4)
             if kind == 0: ops.append("T age %d" % rng.choice([10, 500, 950, 1050, 1950, 2050, 119900, 120100]))
             elif kind == 1: ops.append("T age %d" % max(0, T * 1000 - 60)); ops.append("T prune %d" % T)
             elif kind == 2:
                 ops.append("T age %d" % (T * 1000 + 60))
-                if rng.chance(1, 2):
+                r2 = rng.below(4)
+                if r2 < 2:
                     # heard again after the ageing, but not through a position report: the record survives with an old position fix
                     g = rng.choice(flights)
                     ops.append(hexop("T act", g.frame(me_ident(1 + rng.below(4), rng.below(8), rng.choice(names)))))
+                elif r2 == 2:
+                    # only a frame of another format (all-call reply, surveillance reply ...) arrives from the aircraft after the ageing:
+                    # that is not "heard" in the sense of the tracker, the record must expire
+                    g = rng.choice(flights)
+                    ops.append(hexop("T act", other_format(rng, g.icao)))
                 ops.append("T prune %d" % T)
             else: ops.append("T prune %d" % T)
         else:
